@@ -4,7 +4,7 @@
    links, identities renumbered in traversal order.  It checks nothing itself.
 
    One case per input line (the op list of a sequence is ';'-separated so that run_lines can shard):
-     seq <langid> <xmlgen> <op>;<op>;...
+     seq <langid> <xmlgen> <op>;<op>;...      (xmlgen + 10: at the end the tree is destroyed before the detached sub-trees, else after)
      xml <xmlgen> <hex of an XML document>
    Operations (fields ','-separated, strings in hex, node references = traversal index, -1 = NULL):
      E,p,name            wbxml_tree_add_xml_elt
@@ -168,7 +168,8 @@ static void emit_outputs(WBXMLTree *tree, int xmlgen) {
     if (out) wbxml_free(out);
 }
 
-static void run_seq(int langid, int xmlgen, char *opsline) {
+static void run_seq(int langid, int xmlgen_arg, char *opsline) {
+    int xmlgen = xmlgen_arg % 10, tree_first = xmlgen_arg >= 10;   /* 1x: at the end the tree is destroyed BEFORE the detached sub-trees */
     WBXMLTree *tree = wbxml_tree_create((WBXMLLanguage) langid, WBXML_CHARSET_UNKNOWN);
     static char *ops[4096];
     int nops, i, first = 1;
@@ -281,9 +282,10 @@ static void run_seq(int langid, int xmlgen, char *opsline) {
     /* everything is destroyed BEFORE the answer line is completed: a sanitizer report during destruction leaves
        this sequence unanswered, so that the check attributes it to the right input */
     if (!overflow) {
+        if (tree_first) wbxml_tree_destroy(tree);
         for (i = 0; i < ndet; i++) wbxml_tree_node_destroy_all(detached[i]);
         ndet = 0;
-        wbxml_tree_destroy(tree);
+        if (!tree_first) wbxml_tree_destroy(tree);
     }
     printf("\n");
 }
